@@ -54,9 +54,20 @@ type tornFile struct {
 
 func (f *tornFile) Write(p []byte) (int, error) {
 	if j := int(f.fs.arm.Load()); j > 0 {
+		// where the tear falls: counted from the END of the write (a write often ends with one or two small records - a size
+		// record, a batch of deletions - behind the tail of a large value), then the middle and the first byte
 		n := 0
 		if len(p) > 1 {
-			n = 1 + (len(p)-2)*(j-1)/max(1, f.fs.steps-1) // 1 .. len-1
+			back := []int{1, 8, 40, 100, 200, 400}
+			switch {
+			case j-1 < len(back):
+				n = len(p) - back[j-1]
+			case j-1 == len(back):
+				n = len(p) / 2
+			default:
+				n = 1
+			}
+			n = max(1, min(len(p)-1, n))
 		}
 		_, _ = f.File.Write(p[:n])
 		f.fs.frozen()
@@ -199,7 +210,7 @@ func (o reopenObs) String() string {
 func runCrash(o *Out, r *rand.Rand, thorough bool, _ []string) {
 	nHist, maxCuts, tornSteps := 3, 60, 5
 	if thorough {
-		nHist, maxCuts, tornSteps = 25, 400, 9
+		nHist, maxCuts, tornSteps = 25, 400, 8
 	}
 	for h := 0; h < nHist; h++ {
 		// an independent PRNG per history: the number of file-system operations (background compactions) may vary
